@@ -24,7 +24,7 @@ def main():
         for d in demos:
             mm = re.search(r"([\w/.-]*/)" + re.escape(d), demo_txt)
             rel = (mm.group(1) if mm else "") + d
-            rel = re.sub(r"^(/tmp/seed/%s/|<repo root>/|\./)" % pid, "", rel)
+            rel = re.sub(r"^(/tmp/seed/%s/|<repo root>/|\./)" % pid, "", rel).lstrip("/")
             os.makedirs(os.path.dirname(os.path.join(wt, rel)) or wt, exist_ok=True)
             shutil.copy(os.path.join(src, d), os.path.join(wt, rel))
             if rel not in placed: placed.append(rel)
@@ -50,21 +50,32 @@ def main():
     shutil.copy(src + "/demo.txt", dst + "/demo.txt")
     meta = {"property": pid, "breaks": open(src + "/meta.txt").read().strip(), "demo_files": placed, "demo_cmd": cmd,
             "confirmed": res, "confirmed_in": "scratch worktree of /repo at the pinned commit", "checks": {}}
-    # run our checks against /repo with the patch applied
-    rc, out = sh("git -C /repo apply --3way %s/patch.diff 2>&1 || git -C /repo apply %s/patch.diff" % (dst, dst), "/repo")
-    if rc != 0:
-        meta["checks"]["apply_to_current_repo"] = "patch does not apply to /repo HEAD: " + out[-300:]
-        sh("git checkout -- . ; git reset -q", "/repo")
+    # run our checks against /repo with the patch applied (a hand-rebased patch.rebased.diff, if present,
+    # is used when fix: commits in /repo made the original patch inapplicable)
+    rc, out = sh("git status --porcelain", "/repo")
+    if out.strip():
+        print("REFUSING: /repo is not clean"); return 1
+    cand = [dst + "/patch.rebased.diff", dst + "/patch.diff"]
+    applied = None
+    for c in cand:
+        if os.path.exists(c):
+            rc, out = sh("git -C /repo apply %s" % c, "/repo")
+            if rc == 0:
+                applied = os.path.basename(c); break
+    if not applied:
+        meta["checks"]["apply_to_current_repo"] = "patch does not apply to /repo HEAD (needs patch.rebased.diff): " + out[-300:]
+        print("DOES NOT APPLY to current /repo")
     else:
+        meta["applied_to_current_repo"] = applied
         try:
             for c in checks:
                 t = time.time()
                 rc, out = sh("./check %s --tier quick" % c, "/verif")
                 v = [l for l in out.split("\n") if l.startswith("VIOLATION")]
                 meta["checks"][c] = {"exit": rc, "line": v[0] if v else "", "wall_s": round(time.time() - t, 1)}
-                print(c, rc, v[:1])
+                print(c, rc, v[:1], "" if rc in (0, 1) else out[-400:])
         finally:
-            sh("git reset -q; git checkout -- . ; git clean -fdq", "/repo")
+            sh("git reset -q --hard HEAD; git clean -fdq", "/repo")
     json.dump(meta, open(dst + "/meta.json", "w"), indent=1)
     return 0
 sys.exit(main())
